@@ -38,6 +38,12 @@ Sensitivity (scratch copies, quick tier, seed 1):
   * web.py authenticated: next not url-encoded                            -> caught (login_redirect_target)
   * web.py addslash drops the query                                       -> caught (redirect_target_differs)
   * web.py authenticated: login url taken from the ?next= argument        -> caught (login_redirect_target)
+  * web.py addslash: collapse "/" + uri.lstrip("/\\") -> "/" + uri.lstrip("/").lstrip("\\") (GET /\\/evil.com ->
+    Location: //evil.com/)  -> caught at seeds 1,2,3 by the deterministic "grid" part; the symmetric removeslash
+    mutant and a static guard that only tests "//" are caught there, too.  Missed at some seeds before: leads mixing
+    slash, backslash, slash were left to sampling.  The grid enumerates every lead of length <= 5 over
+    {'/', '\\', '%2f', '%5c'} (1364 leads) in front of evil.com through @removeslash/@addslash behind every pattern
+    that can match and through both static mounts (the static tree has a directory for every lead): 4948 cases, ~3 s.
 Not implemented from DESIGN: "redirect target == request path +- one slash" is asserted only for paths with a
 single leading slash (the repaired code deliberately collapses leading slashes; the statement only demands a
 same-host path there).  Raw non-ASCII bytes in the target are not generated (not valid in a request-target;
@@ -61,7 +67,8 @@ READY = True
 RULE = (
     "Hypothesis: (route of 12 apps, method, request target = <=4 slash-like prefixes + host-like segment + <=2 "
     "segments + <=3 trailing slashes + optional query); non-trivial = the target starts with >=2 slash-like "
-    "characters or its first segment is host-like; distinct = SHA-1 of (route, method, target)"
+    "characters or its first segment is host-like; plus a deterministic grid: all 1364 lead sequences of "
+    "length <= 5 over {/, \\, %2f, %5c} x decorators x patterns x static mounts; distinct = SHA-1 of (route, method, target)"
 )
 ASSUMPTIONS = [
     "independent WHATWG-style Location classifier in the check (backslash counts as slash, as in browsers)",
@@ -86,6 +93,26 @@ for _d in HOSTLIKE + ["d", "x", "\\evil.com", "static"]:
         _f.write("index of " + _d)
 with open(os.path.join(ROOT, "index.html"), "w") as _f:
     _f.write("root index")
+
+
+# ---- deterministic grid of lead sequences (see grid_cases); the static tree gets a directory for every
+# lead so that the directory redirect of StaticFileHandler is reachable behind each of them
+GRID_ALPHABET = ["/", "\\", "%2f", "%5c"]
+GRID_HOST = "evil.com"
+
+
+def grid_leads(maxlen=5):
+    import itertools
+    for n in range(1, maxlen + 1):
+        for seq in itertools.product(GRID_ALPHABET, repeat=n):
+            yield "".join(seq)
+
+
+for _lead in grid_leads():
+    _dec = _lead.replace("%2f", "/").replace("%5c", "\\")
+    for _rel in {_dec.lstrip("/"), _dec[1:]}:
+        if not _rel.startswith("/"):
+            os.makedirs(os.path.join(ROOT, _rel + GRID_HOST), exist_ok=True)
 
 
 # --------------------------------------------------------------------------- applications
@@ -301,9 +328,30 @@ def _fix(route, method, target):
 
 case_s = st.builds(_fix, st.sampled_from(ROUTES), st.sampled_from(["GET", "GET", "GET", "HEAD", "POST"]), target_s)
 
-PARTS = {"main": run_case}
+def grid_cases():
+    """Every lead sequence of length <= 5 over {'/', '\\', '%2f', '%5c'} in front of a host-like segment,
+    through both decorators behind each catch-all pattern that can match it and through the static
+    directory redirect (1364 leads; nothing is left to sampling for short prefixes)."""
+    for lead in grid_leads():
+        routes = ["any"]
+        if lead.startswith("/"):
+            routes.append("slash_group")
+        if lead.startswith("//"):
+            routes.append("dslash")
+        for pk in routes:
+            yield ("rs_" + pk, "GET", lead + GRID_HOST + "/")
+            yield ("as_" + pk, "GET", lead + GRID_HOST)
+        if lead.startswith("/"):
+            yield ("rs_any", "HEAD", lead + "@evil.com//?next=//x")
+            yield ("as_any", "HEAD", lead + "@evil.com?next=//x")
+            yield ("static_root", "GET", lead + GRID_HOST)
+            yield ("static_multi", "GET", lead + GRID_HOST)
+
+
+PARTS = {"main": run_case, "grid": run_case}
 
 
 def main(ctx):
     ctx.run_replays(PARTS)
+    ctx.enumerate(grid_cases(), run_case, name="grid")
     ctx.explore(case_s, run_case, ctx.n(1500, 60000), name="main")
